@@ -120,6 +120,10 @@ fn distinct_sends(l: &[SOp]) -> bool {
 }
 
 impl SProg {
+    pub fn with_rx_owner(mut self, owner: u8) -> SProg {
+        self.rx_owner = owner;
+        self
+    }
     fn with_rx(mut self, owner: u8) -> SProg {
         self.rx_owner = owner;
         self
